@@ -350,6 +350,23 @@ Definition build_from (u0 : univ) (pkgs : list gpkg) : option world :=
 Definition build (pkgs : list gpkg) : option world := build_from {| objs := []; tkeys := [] |} pkgs.
 End Build.
 
+(* programs as go/types produces them: the underlying type of a defined type is an unnamed composite *)
+Definition composite (sh : shape) : bool :=
+  match sh with SBasic _ | SNamed _ _ _ _ _ | STypeParam => false | _ => true end.
+Definition named_okb (v2 : bool) (p : prog) : bool :=
+  forallb (fun nd : N * (str * shape) =>
+    match snd (snd nd) with
+    | SNamed cls under _ _ origin =>
+        if N.eqb cls 0 then true else
+        let under' := if N.eqb cls 1 && v2 then
+                        match origin with
+                        | Some og => match plookup og p with Some (_, SNamed _ u' _ _ _) => u' | _ => under end
+                        | None => under end
+                      else under in
+        match plookup under' p with Some (_, sh) => composite sh | None => false end
+    | _ => true
+    end) p.
+
 (* every package that holds a type key also exists as a package *)
 Definition all_packages (w : world) : list str :=
   sort_strs (fold_left (fun acc x => if mem_str x acc then acc else acc ++ [x])
@@ -472,6 +489,15 @@ Definition run_universe (inp : sexp) : option sexp :=
                 | Some w => e_world w
                 | None => etag "out-of-fuel" [] end)
       | _, _ => None end
+  | _ => None end.
+
+(* the shape hypothesis of the canonical-identity theorems, decided on the program at hand *)
+Definition run_wellformed (inp : sexp) : option sexp :=
+  match inp with
+  | L [A [v]; nodes; pkgs] =>
+      match dlist (dpair dnum (dpair dstr d_shape)) nodes with
+      | Some nodes => Some (ebool (named_okb (N.eqb v 2) nodes))
+      | None => None end
   | _ => None end.
 
 (* C20: the predicates on every Types entry of the built universe *)
